@@ -153,6 +153,11 @@ class Folder:
                     raise Diverged("index out of bounds")
                 v = v[1][i]
                 continue
+            if e["k"] == "downcast" and isinstance(v, tuple) and v[0] in ("some", "none"):
+                continue
+            if e["k"] == "field" and isinstance(v, tuple) and v[0] == "some" and e["i"] == 0:
+                v = v[1]
+                continue
             if e["k"] == "cindex" and isinstance(v, tuple) and v[0] == "bytes":
                 i = (len(v[1]) - e["off"]) if e.get("from_end") else e["off"]
                 if not (0 <= i < len(v[1])):
@@ -230,6 +235,19 @@ class Folder:
             raise Unsupported("binary %s" % op)
         if k == "agg" and rv.get("agg") == "tuple":
             return ("tuple",) + tuple(self._operand(f, body, env, o) for o in rv["ops"])
+        if k == "agg" and rv.get("agg") == "array":
+            return ("array", tuple(self._operand(f, body, env, o) for o in rv["ops"]))
+        if k == "agg" and rv.get("agg") == "adt" and rv.get("adt") == "std::option::Option":
+            return ("none",) if rv["variant"] == "None" else ("some", self._operand(f, body, env, rv["ops"][0]))
+        if k == "agg" and rv.get("agg") == "adt" and rv.get("adt") in ("std::ops::RangeTo", "std::ops::RangeFrom", "std::ops::Range"):
+            return (rv["adt"].rsplit("::", 1)[1],) + tuple(self._operand(f, body, env, o) for o in rv["ops"])
+        if k == "discr":
+            v = self._load(f, body, env, rv["p"])
+            while isinstance(v, tuple) and v[0] == "ref":
+                v = v[1]
+            if isinstance(v, tuple) and v[0] in ("some", "none"):
+                return int(v[0] == "some")
+            raise Unsupported("discriminant of a non-Option value")
         if k == "agg" and rv.get("agg") == "closure":
             return ("closure", rv["def"], tuple(self._operand(f, body, env, o) for o in rv["ops"]))
         raise Unsupported("rvalue %s" % k)
@@ -243,6 +261,9 @@ class Folder:
                 v = v[1]
             return v
         a = [deref(x) for x in args]
+        if a and isinstance(a[0], tuple) and a[0][0] == "closure" and base.rsplit("::", 1)[-1] in ("call", "call_mut", "call_once") and len(a) > 1 \
+                and isinstance(a[1], tuple) and a[1][0] == "tuple":
+            return self.call(a[0][1], [("tuple",) + tuple(a[0][2])] + list(a[1][1:]))
         if base in self.hooks:
             return self.hooks[base](a)
         if key in self.hooks:
@@ -259,6 +280,43 @@ class Folder:
             raise Unsupported("call of a non-closure value")
         s0 = a[0] if a and isinstance(a[0], tuple) and a[0][0] == "str" else None
         it0 = a[0] if a and isinstance(a[0], tuple) and a[0][0] == "iter" else None
+        def pat_chars(pv):
+            if isinstance(pv, int):
+                return [chr(pv)]
+            if isinstance(pv, tuple) and pv[0] == "array":
+                return [chr(x) for x in pv[1]]
+            if isinstance(pv, tuple) and pv[0] == "str":
+                return [pv[1]]
+            raise Unsupported("string pattern")
+        if a and isinstance(a[0], tuple) and a[0][0] == "closure" and base.rsplit("::", 1)[-1] in ("call", "call_mut", "call_once") and len(a) > 1 \
+                and isinstance(a[1], tuple) and a[1][0] == "tuple":
+            c = a[0]
+            return self.call(c[1], [("tuple",) + tuple(c[2])] + list(a[1][1:]))
+        if s0 is not None and not all(ord(ch) < 128 for ch in s0[1]) and base in ("str::find", "str::strip_prefix", "std::ops::Index::index"):
+            raise Unsupported("byte offsets into non-ASCII text")
+        if s0 is not None and len(a) > 1:
+            if base == "str::strip_prefix":
+                for pc in pat_chars(a[1]):
+                    if s0[1].startswith(pc):
+                        return ("some", ("str", s0[1][len(pc):]))
+                return ("none",)
+            if base == "str::find":
+                idx = [s0[1].find(pc) for pc in pat_chars(a[1]) if s0[1].find(pc) >= 0]
+                return ("some", min(idx)) if idx else ("none",)
+            if base == "std::ops::Index::index" and isinstance(a[1], tuple) and a[1][0] in ("RangeTo", "RangeFrom", "Range"):
+                r = a[1]
+                lo, hi = (0, r[1]) if r[0] == "RangeTo" else (r[1], len(s0[1])) if r[0] == "RangeFrom" else (r[1], r[2])
+                if not (0 <= lo <= hi <= len(s0[1])):
+                    raise Diverged("slice out of range")
+                return ("str", s0[1][lo:hi])
+        if s0 is not None and base == "str::bytes":
+            return ("iter", tuple(s0[1].encode("utf-8")))
+        if a and isinstance(a[0], tuple) and a[0][0] in ("some", "none"):
+            nm0 = base.rsplit("::", 1)[-1]
+            if nm0 == "unwrap_or" and len(a) > 1:
+                return a[0][1] if a[0][0] == "some" else a[1]
+            if nm0 == "map_or" and len(a) > 2:
+                return call_closure(a[2], a[0][1]) if a[0][0] == "some" else a[1]
         if s0 is not None:
             if base == "str::is_empty":
                 return int(s0[1] == "")
